@@ -16,7 +16,14 @@ rm -f log_sg
 cd /verif
 VERIF_REPO=$wt VERIF_REPLAY_DIR=$wt.replays /venv/bin/python -m vlib.run $prop --tier quick --no-evidence > $wt.check.log 2>&1; rc_check=$?
 sigs=$(grep -o "signature=[^ ]*" $wt.check.log | sort -u | tr '\n' ' ')
-tests_result=$(python3 -c "import json,sys;print(json.load(open('$d/verify.json')).get('repository_tests','not run'))" 2>/dev/null || echo "not run")
+tests_result=$(python3 -c "
+import json,os
+d='$d'
+r='not run'
+for f in ('verify.json','tests.json'):
+    if os.path.exists(d+'/'+f):
+        r=json.load(open(d+'/'+f)).get('repository_tests',r)
+print(r)" 2>/dev/null || echo "not run")
 if [ "$tests" = "--tests" ]; then
   (cd $wt && MPLBACKEND=Agg PYTHONPATH=$wt /venv/bin/python -m pytest -q -p no:cacheprovider --timeout=900 --continue-on-collection-errors --junitxml=$wt.junit.xml > $wt.pytest.log 2>&1)
   tests_result=$(python3 - $wt.junit.xml <<'PY'
